@@ -7,6 +7,7 @@
   Their evaluation counts are reported; their violations are reported under signatures 'insitu:*'.
 All monitor state is per process and single-threaded (the repository has no threads sharing state).
 """
+import hashlib
 import os
 import sys
 
@@ -74,11 +75,14 @@ def install_primitive_monitors():
         if len(c) != 16 + 16 * (len(message) // 16 + 1):
             _viol("insitu:aes-cipher-length", f"len(c)={len(c)} for len(m)={len(message)}",
                   {"key": key.hex(), "message": message.hex()})
-        iv = c[:16]
-        if iv in seen_iv:
-            _viol("insitu:aes-iv-reuse", "an IV was produced twice in one process", {"iv": iv.hex()})
+        # (key, IV) pairs must never repeat: the same pair encrypts equal plaintexts to equal ciphertexts.
+        # (IVs alone may legitimately coincide under different keys in an implementation that derives them.)
+        pair = hashlib.blake2b(key + c[:16], digest_size=12).digest()
+        if pair in seen_iv:
+            _viol("insitu:aes-iv-reuse", "the same (key, IV) pair was used for two encryptions in one process",
+                  {"iv": c[:16].hex(), "key": key.hex()})
         elif len(seen_iv) < 2_000_000:
-            seen_iv.add(iv)
+            seen_iv.add(pair)
         if state["n"] % 8 == 0:
             _count("aes.encrypt.roundtrip")
             try:
